@@ -87,6 +87,25 @@ def replay_chunk(ctx, texts):
                     "".join(x["call"][0] + ("!" if x["out"] != "ok" else "") for x in hist[:last]), i, diff[0],
                     got[last + i].get(diff[0]), r.get(diff[0]))
                 break
+        # the same episode once more through TradingEnv.backtest (the entry point of back-testing users) with a policy that
+        # replays the actions: when the last episode ran to its end, the track record is the one of the step loop
+        ep = hist[last:]
+        if bad is None and len(ep) >= 2 and ep[-1]["call"] == "step" and ep[-1]["out"] == "ok" and ep[-1]["done"] \
+                and all(r["out"] == "ok" for r in ep):
+            bt = replay_env.World(cfg, ctx["trade"], seed=3, extra_features=lambda ww: [Obs(ww.A, ww.B)])
+            o, tr, used = bt.backtest(ep[0]["start"] or 1, ep[0]["act"]["id"], [r["act"] for r in ep[1:]])
+            out["ops"] += len(ep)
+            out["classes"]["backtest-compared"] = out["classes"].get("backtest-compared", 0) + 1
+            if o != "ok":
+                bad = "backtest() of the episode that the step loop completed raised %r" % (tr,)
+            else:
+                t2 = [(str(tr[i].time), hx(tr[i].context_pre.nlv), hx(tr[i].context_post.nlv)) for i in range(len(tr))]
+                h2 = sorted((c.symbol, hx(q)) for c, q in bt.env.broker.holdings_quantity.items())
+                if used != len(ep) - 1:
+                    bad = "backtest() asked the policy for %d actions, the step loop needed %d to reach the end" % (used, len(ep) - 1)
+                elif t2 != got[-1]["track"] or h2 != got[-1]["holdings"]:
+                    bad = "backtest() with the same actions leaves track record / holdings %r / %r, the step loop %r / %r" % (
+                        t2[-2:], h2, got[-1]["track"][-2:], got[-1]["holdings"])
         out["n"] += 1
         k = "".join(x["call"][0] for x in hist)
         out["classes"][k] = out["classes"].get(k, 0) + 1
